@@ -48,6 +48,7 @@ type e struct {
 	m        sync.Mutex
 	l        *rate.Limiter
 	lastSeen time.Time
+	dead     bool // removed by gc
 }
 
 // Creates a ClientLimiter.
@@ -64,12 +65,19 @@ func NewClientLimiter(opts ClientLimiterOpts) *ClientLimiter {
 }
 
 func (cl *ClientLimiter) AllowN(addr netip.Addr, now time.Time, n int) bool {
-	e, _ := cl.m.LoadOrCompute(cl.mask(addr), func() *e { return &e{l: rate.NewLimiter(rate.Limit(cl.opts.Limit), cl.opts.Burst)} })
-	e.m.Lock()
-	e.lastSeen = now
-	ok := e.l.AllowN(now, n)
-	e.m.Unlock()
-	return ok
+	key := cl.mask(addr)
+	for {
+		e, _ := cl.m.LoadOrCompute(key, func() *e { return &e{l: rate.NewLimiter(rate.Limit(cl.opts.Limit), cl.opts.Burst)} })
+		e.m.Lock()
+		if e.dead { // gc removed it after we loaded it, get a new one
+			e.m.Unlock()
+			continue
+		}
+		e.lastSeen = now
+		ok := e.l.AllowN(now, n)
+		e.m.Unlock()
+		return ok
+	}
 }
 
 // Stop gc goroutine.
@@ -108,13 +116,15 @@ func (cl *ClientLimiter) gc() {
 	ddl := now.Add(-entryTtl)
 	cl.m.Range(func(key netip.Addr, value *e) bool {
 		value.m.Lock()
-		lastSeen := value.lastSeen
 		// Only a full bucket can be dropped. A new one is full as well.
 		full := value.l.TokensAt(now) >= float64(value.l.Burst())
-		value.m.Unlock()
-		if lastSeen.Before(ddl) && full {
+		if value.lastSeen.Before(ddl) && full {
+			// Delete it with the lock held. So a concurrent AllowN call either
+			// happens before and is seen here, or gets a new entry.
+			value.dead = true
 			cl.m.Delete(key)
 		}
+		value.m.Unlock()
 		return true
 	})
 }
